@@ -24,7 +24,7 @@ G = ["g2", "g1"]
 H = ["hd", "h b", "ha", "h[c]"]  # a level with a space and one with brackets
 K = [10, -2, 9]  # string order differs from numeric order
 YC = ["u", "w", "v"]
-VARIANTS = ["str", "cat-ord", "ord-cat", "unused", "num-dtypes", "big", "falsy"]
+VARIANTS = ["str", "cat-ord", "ord-cat", "unused", "num-dtypes", "big", "falsy", "small-ints", "tiny"]
 _FR = {}
 
 
@@ -84,6 +84,12 @@ def frame(n, variant, rot):
         df["z"] = (df["z"] * 10).round().astype("int8")
         df["y"] = (df["y"] > 0)
         df["k"] = df["k"].astype("int16")
+    elif variant == "small-ints":  # 8-bit integer columns whose products do not fit in 8 bits
+        df["x"] = np.array([(37 * i + 5 * rot) % 120 - 20 for i in range(n)], dtype="int8")
+        df["z"] = np.array([(11 * i + rot) % 50 + 3 for i in range(n)], dtype="int8")
+    elif variant == "tiny":  # measurements in small units: every value far below 1e-8, a few exact zeros
+        df["x"] = df["x"] * 1e-10
+        df["z"] = np.where(np.arange(n) % 4 == 1, 0.0, df["z"] * 1e-13)
     elif variant == "unused":  # declared categories that never occur
         df["f"] = pd.Categorical(df["f"], categories=["fc", "fz", "fa", "fb"], ordered=True)  # ordered: all declared levels, in that order
         df["g"] = pd.Categorical(df["g"], categories=["g2", "gz", "g1"])  # unordered: the observed levels, sorted
@@ -239,7 +245,7 @@ def check_labels(labels, M, df, order, comp_names, what, problems, group=False, 
         except KeyError as e:
             problems.append(("label-form", f"{what}: cannot interpret label {lab!r} (piece {e})"))
             continue
-        if not np.allclose(M[:, j], val, rtol=1e-12, atol=1e-12):
+        if not np.allclose(M[:, j], val, rtol=1e-12, atol=0):
             problems.append(("column-meaning", f"{what}: column {j} labelled {lab!r} does not hold that value"))
     if len(set(labels)) != len(labels):
         problems.append(("labels-unique", f"{what}: duplicate labels {labels}"))
@@ -259,9 +265,12 @@ def check_labels(labels, M, df, order, comp_names, what, problems, group=False, 
             problems.append(("level-count", f"{what}: only levels {lv} of {exp} appear for {var}"))
 
 
+NAMES = ["x", "z", "T(f, 'fb')", "f", "g", "h", "C(k)", "yc", "y"]
+
+
 def verify(dm, c, df, order):
     problems = []
-    names = ["x", "z", "T(f, 'fb')", "f", "g", "h", "C(k)", "yc", "y"]
+    names = NAMES
     if c["common"] or c["icpt"]:
         if dm.common is None:
             problems.append(("count", "no common matrix"))
@@ -334,7 +343,7 @@ def verify(dm, c, df, order):
     return problems
 
 
-def exercise(dm, df):
+def exercise(dm, df, order=None, names=None, problems=None):
     """Read-only use of a design: str() of every matrix, as_dataframe() twice, new data with unseen levels in silent
     mode (printed as well).  Returns a short description of what could be done."""
     import formulae
@@ -364,6 +373,9 @@ def exercise(dm, df):
                 str(r), repr(r)
                 if m is dm.common:
                     r.as_dataframe(), r.as_dataframe()
+                    if problems is not None:  # the labels mean the same on a frame with unseen levels: those rows are 0 in every level column
+                        for tname, t in dm.common.terms.items():
+                            check_labels(list(t.labels), r[tname], nd, order, names, f"common term {tname} on new data with unseen levels (silent mode)", problems)
                 done.append("unseen-" + type(m).__name__[:6])
             except Exception as e:
                 done.append("unseen-raises-" + type(e).__name__)
@@ -396,7 +408,7 @@ def check_case(case, acc):
     # reading operations (printing, data-frame views, new data with unseen levels printed) and a later design built from
     # the same formula text on another frame must not disturb this one
     acc.calls += 1
-    done = exercise(dm, df)
+    done = exercise(dm, df, order, NAMES, problems)
     acc.table("reading_operations_between_the_two_verifications", done)
     try:
         design_matrices(f, alt_frame())
